@@ -27,7 +27,7 @@
    hypothesis is necessary.  The *_by_game corollaries spell the configuration out per game. *)
 From Coq Require Import List NArith ZArith Bool Arith Lia ZifyBool ZifyNat ZifyN.
 From Mila Require Import Lib.Bytes Lib.Machine Model.Localize Model.LayeredFS Model.FsTyped
-  Proofs.LayeredFSBase Proofs.LayeredFSStack Proofs.LayeredFSWf Proofs.LayeredFSCodec.
+  Proofs.LayeredFSBase Proofs.LayeredFSStack Proofs.LayeredFSWf Proofs.LayeredFSLocal Proofs.LayeredFSCodec.
 From Mila Require Import Model.BinArchive Model.BinFormat Model.TextMap Model.TexCommon.
 From Mila Require Model.LZ10 Model.LZ11 Model.LZDecode Model.TextFormat Model.Arc Model.Pack Model.PackFormat Model.TexFormat
   Model.Ctpk Model.Bch Model.Cgfx Model.Tpl.
@@ -747,6 +747,61 @@ Proof.
   { eapply Forall_impl; [|exact (F s pp false A)]. intros o. apply writes_elsewhere_state; assumption. }
   destruct (typed_run_keeps_typed_reads mc md md os S1 p loc s (pp, false) A1 F1) as (_ & K & _).
   exists a'. rewrite K. split; [exact Ra | exact R].
+Qed.
+
+(* ------------------------------------------------------------------ localisation (the file-system half of C14) for the typed helpers *)
+(* a localized typed call addresses exactly what the unlocalized call on [localize p] addresses (the codec is chosen by the name the
+   caller passed: the premise holds for every path dir/name without trailing '/', C14_fs_same_codec) *)
+Theorem typed_localized_consistent mc md S p p' :
+  localize (c_loc (conf S)) (lng S) p = LOk p' ->
+  is_compressed (c_comp (conf S)) p = is_compressed (c_comp (conf S)) p' ->
+  read_file md S p true = read_file md S p' false /\
+  read_archive md S p true = read_archive md S p' false /\
+  read_text_archive md S p true = read_text_archive md S p' false /\
+  read_arc md S p true = read_arc md S p' false /\
+  read_fe9_arc md S p true = read_fe9_arc md S p' false /\
+  (forall k, read_textures md k S p true = read_textures md k S p' false) /\
+  (forall b, write_file mc S p b true = write_file mc S p' b false) /\
+  (forall a, write_archive mc S p a true = write_archive mc S p' a false) /\
+  (forall a, write_text_archive mc S p a true = write_text_archive mc S p' a false).
+Proof.
+  intros Hl Hc. destruct (loc_read_write S p p' Hl (lz_compress mc) (lz_decompress md) Hc) as [R W].
+  unfold read_file, write_file, read_archive, read_text_archive, read_arc, read_fe9_arc, read_textures, write_archive, write_text_archive,
+    fs_read_archive, fs_read_text_archive, fs_read_arc, fs_read_fe9_arc, fs_read_textures, fs_write_archive, fs_write_text_archive.
+  rewrite R. repeat split; try exact W.
+  - intros a. destruct (lift_parse (ser_bin mc a)); [apply W | reflexivity | reflexivity].
+  - intros a. destruct (lift_parse (ser_text mc a)); [apply W | reflexivity | reflexivity].
+Qed.
+
+(* a localisation error is returned by every typed reader; a typed writer returns it unless its serializer fails first (the code
+   serializes before it localizes); nothing changes *)
+Theorem typed_localisation_error mc md S p e :
+  localize (c_loc (conf S)) (lng S) p = LErr e ->
+  read_file md S p true = FErr (ELocalization e) /\
+  read_archive md S p true = FErr (ELocalization e) /\
+  read_text_archive md S p true = FErr (ELocalization e) /\
+  read_arc md S p true = FErr (ELocalization e) /\
+  read_fe9_arc md S p true = FErr (ELocalization e) /\
+  (forall k, read_textures md k S p true = FErr (ELocalization e)) /\
+  (forall b, write_file mc S p b true = (S, FErr (ELocalization e))) /\
+  (forall a f, BinFormat.serialize mc a = Ok f -> write_archive mc S p a true = (S, FErr (ELocalization e))) /\
+  (forall a f, TextFormat.serialize mc (ta_fmt a) (ta_endian a) (ta_map a) = Ok f ->
+     write_text_archive mc S p a true = (S, FErr (ELocalization e))) /\
+  (forall a S' r, write_archive mc S p a true = (S', r) -> S' = S) /\
+  (forall a S' r, write_text_archive mc S p a true = (S', r) -> S' = S).
+Proof.
+  intros Hl.
+  assert (A : fs_addr S p true = FErr (ELocalization e)) by (unfold fs_addr, fs_actual; rewrite Hl; reflexivity).
+  assert (R : read_file md S p true = FErr (ELocalization e)) by (unfold read_file, fs_read; rewrite A; reflexivity).
+  assert (W : forall b, write_file mc S p b true = (S, FErr (ELocalization e))) by (intros b; unfold write_file, fs_write; rewrite A; reflexivity).
+  destruct (typed_helpers_unfold mc md S p true) as (U1 & U2 & U3 & U4 & _ & _ & _ & _ & UW & UT).
+  split; [exact R|]. rewrite U1, U2, U3, U4, R. cbn [fbind].
+  repeat split; try exact W.
+  - intros k. unfold read_textures, fs_read_textures. unfold read_file in R. rewrite R. reflexivity.
+  - intros a f Hs. rewrite UW, Hs. apply W.
+  - intros a f Hs. rewrite UT, Hs. apply W.
+  - intros a S' r. rewrite UW. destruct (BinFormat.serialize mc a); [rewrite W|idtac|idtac]; intros H; injection H as <- _; reflexivity.
+  - intros a S' r. rewrite UT. destruct (TextFormat.serialize mc _ _ _); [rewrite W|idtac|idtac]; intros H; injection H as <- _; reflexivity.
 Qed.
 
 (* ------------------------------------------------------------------ non-vacuity *)
